@@ -3,6 +3,7 @@ package value
 import (
 	"context"
 	"fmt"
+	"github.com/smarthome-go/homescript/v3/homescript/analyzer/ast"
 	"sort"
 	"strings"
 
@@ -58,6 +59,14 @@ func (self ValueAnyObject) Fields() (map[string]*Value, *Interrupt) {
 			value := self.FieldsInternal[args[0].(ValueString).Inner]
 			return NewValueOption(value), nil
 		}),
+		"get_type": NewValueBuiltinFunction(func(executor Executor, cancelCtx *context.Context, span errors.Span, args ...Value) (*Value, *Interrupt) {
+			key := args[0].(ValueString).Inner
+			value, found := self.FieldsInternal[key]
+			if !found || value == nil {
+				return nil, NewThrowInterrupt(span, fmt.Sprintf("Object has no key `%s`", key))
+			}
+			return NewValueString(typeKindName((*value).Kind())), nil
+		}),
 		"keys": NewValueBuiltinFunction(func(executor Executor, cancelCtx *context.Context, span errors.Span, args ...Value) (*Value, *Interrupt) {
 			rawKeys := make([]string, 0)
 			for key := range self.FieldsInternal {
@@ -93,4 +102,32 @@ func NewValueAnyObject(fields map[string]*Value) *Value {
 		FieldsInternal: fields,
 	})
 	return &val
+}
+
+// Returns the name of the static type kind of a value kind (like `ValueKind.TypeKind().String()` on the VM).
+func typeKindName(kind ValueKind) string {
+	switch kind {
+	case NullValueKind:
+		return ast.TypeKind(ast.NullTypeKind).String()
+	case IntValueKind:
+		return ast.TypeKind(ast.IntTypeKind).String()
+	case FloatValueKind:
+		return ast.TypeKind(ast.FloatTypeKind).String()
+	case BoolValueKind:
+		return ast.TypeKind(ast.BoolTypeKind).String()
+	case StringValueKind:
+		return ast.TypeKind(ast.StringTypeKind).String()
+	case AnyObjectValueKind:
+		return ast.TypeKind(ast.AnyObjectTypeKind).String()
+	case ObjectValueKind:
+		return ast.TypeKind(ast.ObjectTypeKind).String()
+	case OptionValueKind:
+		return ast.TypeKind(ast.OptionTypeKind).String()
+	case ListValueKind:
+		return ast.TypeKind(ast.ListTypeKind).String()
+	case RangeValueKind:
+		return ast.TypeKind(ast.RangeTypeKind).String()
+	default:
+		return ast.TypeKind(ast.FnTypeKind).String()
+	}
 }
